@@ -753,19 +753,10 @@ def _line_of(failure):
     return unhx(failure['line']) if 'line' in failure else None
 
 
-def f_leading_blank(case, obs, failure):
-    """a line that starts with white space and cannot be decoded: the error branch re-splits the unstripped line"""
-    ln = _line_of(failure)
-    if failure['class'] != 'reply-mismatch' or ln is None or not ln[:1] or ln[:1] not in [bytes([c]) for c in WS]:
-        return False
-    rq = spec_parse(ln)
-    return not rq['blank'] and not rq['wellformed'] and failure['reply'][0].startswith('error_')
-
-
 def f_latin1_echo(case, obs, failure):
     """an undecodable line whose action or specifier is valid non-ASCII UTF-8: echoed through latin-1 (mojibake)"""
     ln = _line_of(failure)
-    if failure['class'] != 'reply-mismatch' or ln is None or ln[:1] in [bytes([c]) for c in WS]:
+    if failure['class'] != 'reply-mismatch' or ln is None:
         return False
     rq = spec_parse(ln)
     if rq['blank'] or rq['wellformed'] or not failure['reply'][0].startswith('error_'):
@@ -774,8 +765,8 @@ def f_latin1_echo(case, obs, failure):
     nonascii = [x for x in f[:2] if not x.isascii()]
     if not nonascii:
         return False
-    # the reply is exactly the latin-1 reading of the fields
-    raw = ln.decode('latin-1').split(' ', 3) + [None]
+    # the reply is exactly the latin-1 reading of the fields of the stripped line
+    raw = ln.strip(WS).decode('latin-1').split(' ', 3) + [None]
     return failure['reply'][0] == 'error_' + raw[0] and (failure['reply'][1] or None) == (raw[1] or None)
 
 
@@ -788,8 +779,7 @@ def f_ident_alias(case, obs, failure):
     return rq['wellformed'] and rq['action'] == '_ident' and failure['reply'][0].startswith(IDENT_PREFIXES)
 
 
-FINDING_CLASSIFIERS = {'leading_blank_decode_error': f_leading_blank, 'latin1_echo': f_latin1_echo,
-                       'ident_alias': f_ident_alias}
+FINDING_CLASSIFIERS = {'latin1_echo': f_latin1_echo, 'ident_alias': f_ident_alias}
 
 
 # ------------------------------------------------------------------ encoding into Gallina
